@@ -373,6 +373,39 @@ pub enum Entry<'a, K, V> {
     Vacant(VacantEntry<'a, K, V>),
 }
 
+impl<'a, K, V> Entry<'a, K, V> {
+    pub fn index(&self) -> usize {
+        match self {
+            Entry::Occupied(e) => e.index(),
+            Entry::Vacant(e) => e.index(),
+        }
+    }
+    pub fn key(&self) -> &K {
+        match self {
+            Entry::Occupied(e) => e.key(),
+            Entry::Vacant(e) => e.key(),
+        }
+    }
+    pub fn or_insert(self, default: V) -> &'a mut V {
+        match self {
+            Entry::Occupied(e) => e.into_mut(),
+            Entry::Vacant(e) => e.insert(default),
+        }
+    }
+    pub fn or_insert_with<F: FnOnce() -> V>(self, call: F) -> &'a mut V {
+        match self {
+            Entry::Occupied(e) => e.into_mut(),
+            Entry::Vacant(e) => e.insert(call()),
+        }
+    }
+    pub fn and_modify<F: FnOnce(&mut V)>(mut self, f: F) -> Self {
+        if let Entry::Occupied(e) = &mut self {
+            f(e.get_mut());
+        }
+        self
+    }
+}
+
 pub struct OccupiedEntry<'a, K, V> {
     entries: &'a mut Vec<(K, V)>,
     index: usize,
